@@ -134,6 +134,29 @@ func EncodeStdin(data []byte) []byte {
 	return EncodeMessage(MsgStdin, data)
 }
 
+// SplitStdin returns msg as a list of messages of at most maxLen bytes each.
+// A STDIN message longer than maxLen is cut into consecutive STDIN messages
+// that carry the same bytes in the same order. Any other message is returned
+// unchanged: control messages are small and have no meaningful split.
+func SplitStdin(msg []byte, maxLen int) [][]byte {
+	if len(msg) <= maxLen || maxLen < 2 || msg[0] != MsgStdin {
+		return [][]byte{msg}
+	}
+
+	payload := msg[1:]
+	step := maxLen - 1
+	parts := make([][]byte, 0, (len(payload)+step-1)/step)
+	for offset := 0; offset < len(payload); {
+		end := offset + step
+		if end > len(payload) {
+			end = len(payload)
+		}
+		parts = append(parts, EncodeStdin(payload[offset:end]))
+		offset = end
+	}
+	return parts
+}
+
 // EncodeStdout encodes stdout data.
 func EncodeStdout(data []byte) []byte {
 	return EncodeMessage(MsgStdout, data)
